@@ -51,7 +51,7 @@ def make_overlay(tmp):
     return p
 
 
-def build_kvh(tmp, log=None):
+def build_kvh(tmp, log=None, engine=None):
     """go build -tags verif of the harness against /repo's working tree. Returns binary path."""
     out = os.path.join(tmp, "kvh")
     ov = make_overlay(tmp)
@@ -59,7 +59,9 @@ def build_kvh(tmp, log=None):
             os.path.getmtime(os.path.join(REPO, "go.sum")) > os.path.getmtime(os.path.join(HARNESS, "go.sum")):
         shutil.copy(os.path.join(REPO, "go.sum"), os.path.join(HARNESS, "go.sum"))
     t0 = time.time()
-    cmd = ["go", "build", "-tags", "verif", "-overlay", ov, "-o", out]
+    # only the engine that is needed is linked (engines/all/zz_<engine>.go carry `//go:build kvh_all || kvh_<engine>`): a change to
+    # kraken that stops an unrelated engine or shim from compiling does not take this check down with it
+    cmd = ["go", "build", "-tags", "verif,kvh_" + (engine or "all"), "-overlay", ov, "-o", out]
     if os.path.realpath(REPO) != "/repo":
         # scratch worktree (mutation experiments): same harness, kraken replaced by $VERIF_REPO
         mf = os.path.join(tmp, "alt.mod")
